@@ -17,7 +17,16 @@ class C19(Spec):
     level_note = ("driver verdicts (base58 / hex validation) are inputs of the model; LRU eviction is modelled as dropping "
                   "arbitrary entries; three defects found by this check were repaired in /repo (fix: commits 6b621aa, "
                   "e34835e, 450981d). crypto.Load's purity is checked only differentially (no cache in the code).")
-    assumptions = ("address.Init is called once per process", "hashicorp/golang-lru only ever drops entries")
+    assumptions = ("address.Init is called once per process", "hashicorp/golang-lru only ever drops entries",
+                   "'the height' of eth address formatting (PubKeyToAddr / FormatAddr / FormatAddrKey, hence Transaction.From and "
+                   "account keys) is the process-global crypto-context height of common/crypto/client, which those functions read "
+                   "because they take no height argument; the theorems are about the function of (input, context height, "
+                   "configuration). That the context height equals the height of the block being validated is NOT established by "
+                   "this check: the context is updated asynchronously from EventAddBlock messages, so a block at the "
+                   "ForkFormatAddressKey boundary is executed with the previous (or, when the crypto module lags, an older) "
+                   "context height. Only chains that activate that fork above height 0 are affected.",
+                   "signature / transaction validity at height h (crypto.Load, CheckSign, dapp.CheckAddress, the btc driver "
+                   "caches, execAddrCache) has no Lean theorem; it is covered by the differential run only")
 
     def runs(self, tier, seed):
         return [dict(env={"VERIF_C19_MODE": m}) for m in ("cfgA", "cfgB", "cfgC")]
